@@ -32,9 +32,10 @@ RU = "PyMatterSim.reader.reader_utils"
 FUNCS = "PyMatterSim.utils.funcs"
 
 NOT_DECIDED = [
-    "Dynamics.sq4 (the four-point structure factor clause: lag n_t = round(t/time[0]), mobility mask, origin average of conditional_sq) "
-    "is NOT under contract in this build: it needs a DataFrame-arithmetic model and the callee contract of conditional_sq (C13), "
-    "neither of which exists in this tree yet",
+    "Dynamics.sq4: the content of the per-frame tables (that conditional_sq returns the structure factor of the subset it is given) is the "
+    "callee contract of conditional_sq (C13, proved there); here it is an uninterpreted table per origin, and the default wave-vector set is "
+    "an opaque array whose defining arguments (ndim, numofq = int(2 qrange / min 2pi/L) of frame 0, onlypositive=False) are checked; "
+    "origin frames whose slow (fast, selected) subset is empty are outside the precondition (conditional_sq divides by sqrt(0))",
     "the neighbour-file branch of both __init__ (open + read_neighbors once per frame / once): not symbolically executed (no file model); "
     "it is exercised concretely by the replays of the cage cases only (validation, not proof)",
     "int()/round() of floating quotients and the floating-point accuracy of the averages (A1: floats are reals); comparisons |D|^2 < a2 exactly at the cutoff",
@@ -1119,12 +1120,348 @@ def _replay_relaxation(kind, case, clause, model, seed):
     return {"ran": True, "failed": False, "searched": tried, "detail": "real code agrees with the definitions on every seeded trajectory"}
 
 
-UNITS = [DynRelaxation(), LogRelaxation(), DynInit(), LogInit(), Alpha2Factor(), CageRelative()]
+# ------------------------------------------------------------------------------------------------------
+# Dynamics.sq4: four-point structure factor = structure factor of the slow (fast) subset, averaged over origins
+
+CSQ_KEY = "PyMatterSim.static.sq.conditional_sq"
+CWV_KEY = "PyMatterSim.utils.wavevector.choosewavevector"
+SQCOLS = ["q", "Sq"]
+
+
+def _first_for(qualname, contains):
+    import ast
+    m = load_module(MOD)
+    cls, meth = qualname.split(".")
+    node = m.get_class(cls).methods[meth]
+    for n in ast.walk(node):
+        if isinstance(n, ast.For) and contains in ast.unparse(n):
+            return n.lineno
+    return None
+
+
+class DynSq4(Unit):
+    """Dynamics.sq4(t, qrange, condition, outputfile): with lag = round(t / time[0]) (documented conversion of the time to a frame
+    interval) the returned table is  (1 / (T - lag)) sum_{n < T - lag} S_n,  S_n = second result of
+    conditional_sq(frame n of x_snapshots if given else of the dynamics trajectory, the default wave vectors of the box of frame 0,
+    condition = [particle i is slow (fast) between frames n and n + lag] * [selected in frame n])   (callee contract of C13).
+    The frame loop accumulates a DataFrame from the number 0: written invariant, init / step obligations as for every summary."""
+    module = MOD
+    qualname = "Dynamics.sq4"
+    prop = "C06"
+    timeout = 20
+    loop_opts = {"const_sum_closed": True}
+
+    def cases(self):
+        out = []
+        for d in (2, 3):
+            for mode in ("slow", "fast"):
+                for coords in ("xu", "xu+x", "x-only"):
+                    for cd in ("all", "condition"):
+                        out.append(f"d={d}/{mode}/{coords}/nocage/{cd}/nofile")
+            out.append(f"d={d}/slow/xu/cage/all/nofile")
+            out.append(f"d={d}/slow/xu/nocage/all/file")
+        return out
+
+    def setup(self, ctx, case):
+        from pyvc.interp import Frame
+        from pyvc.loops import _SideGoal
+        from pyvc.pandas_model import df_content, new_df
+        from pyvc.state import use_state
+        parts = case.split("/")
+        d, fast, coords, cage, cond, fil = int(parts[0][2]), parts[1] == "fast", parts[2], parts[3] == "cage", parts[4] == "condition", parts[5] == "file"
+        pbc = coords == "x-only"
+        W = World(ctx, d, pbc, cage, cond, fast)
+        T, N = W.T, W.N
+        I_, R_ = z3.IntSort(), z3.RealSort()
+        BL = z3.Function("BL_sq", I_, I_, I_, R_)            # box lengths of (trajectory tag, frame, axis)
+        ctx.array_fact("BL_sq", lambda tg, n, c: BL(tg, n, c) > 0)
+        TAG = z3.Function("frame_tag", I_, I_, I_)           # timestep attribute used as identity of (trajectory tag, frame)
+
+        def snapshot_of(tag):
+            def f(n):
+                cls = load_module(RU).get_class("SingleSnapshot")
+                attrs = {"positions": A.getitem(W.X, n) if tag == 0 else A.new_arr((N, d), lambda idx: sv.SV(z3.Function("XS", I_, I_, I_, R_)(sv.znum(n), sv.znum(idx[0]), sv.znum(idx[1]))), "float"),
+                         "nparticle": N, "timestep": sv.SV(TAG(z3.IntVal(tag), sv.znum(n))), "particle_type": A.getitem(W.ptype, n),
+                         "boxlength": A.new_arr((d,), lambda idx: sv.SV(BL(z3.IntVal(tag), sv.znum(n), sv.znum(idx[0]))), "float")}
+                if pbc:
+                    attrs["hmatrix"] = A.getitem(W.HM, n)
+                return new_obj(cls, attrs, frozen=True)
+            return f
+
+        def snaps(tag):
+            lst = Ref(cur().alloc(Content("list", A.SeqVal(T, snapshot_of(tag)))), "list")
+            return ctx.obj(RU, "Snapshots", {"nsnapshots": T, "snapshots": lst})
+        S_dyn = snaps(0)
+        S_x = snaps(1) if coords == "xu+x" else None
+        sq_tag = 1 if coords == "xu+x" else 0          # whose frames are handed to conditional_sq
+        self_ = ctx.obj(MOD, "Dynamics", {"ppp": W.ppp, "ndim": d, "cal_type": "fast" if fast else "slow", "snapshots": S_dyn,
+                                          "x_snapshots": (S_x if coords == "xu+x" else (S_dyn if pbc else None)), "PBC": pbc, "time": W.tm,
+                                          "diameters": W.diam, "a2_cuts": W.a2, "neighborlists": W.neighborlists()})
+        if pbc:
+            sq_tag = 0
+        t, qrange = ctx.real("t"), ctx.real("qrange")
+        ctx.assume(sv.cmp(">", W.tm.get((0,)), 0))
+        ctx.assume(qrange > 0)
+        lag = sv.rint_int(sv.div(t, W.tm.get((0,))))
+        ctx.assume(sv.cmp(">=", lag, 0))
+        ctx.assume(sv.cmp("<", lag, T))                     # at least one origin
+        G = ctx.int("ngroups")                              # rows of the |q|-averaged table: a function of the wave vectors only
+        ctx.assume(G >= 0)
+        M = ctx.int("nvectors")
+        ctx.assume(M >= 0)
+        CS = z3.Function("CSQ", I_, I_, I_, R_)              # (origin frame, row, column) at this lag
+        norig = sv.sub(T, lag)
+        # ---- callee contracts
+        numofq_spec = sv.trunc(sv.div(sv.mul(qrange, 2), _min([sv.div(sv.mul(2, sv.PI), sv.SV(BL(z3.IntVal(sq_tag), z3.IntVal(0), z3.IntVal(c)))) for c in range(d)])))
+        QV = {}
+
+        def cwv(interp, args, kwargs):
+            a = dict(zip(["ndim", "numofq", "onlypositive"], args))
+            a.update(kwargs)
+            st = cur()
+            st.require(sv.cmp("==", a.get("ndim"), d), "call:choosewavevector:pre:ndim")
+            st.require(sv.cmp("==", a.get("numofq"), numofq_spec), "call:choosewavevector:numofq=int(2.qrange/min(2pi/L))-of-frame-0-of-the-S(q)-trajectory")
+            op = a.get("onlypositive", False)
+            st.require(op is False or (sv.is_conc(op) and not op), "call:choosewavevector:onlypositive=False")
+            QVf = z3.Function("QV", I_, I_, I_)
+            arr = A.new_arr((M, d), lambda idx: sv.SV(QVf(sv.znum(idx[0]), sv.znum(idx[1]))), "int")
+            QV["sid"] = arr.sid
+            return arr
+
+        def frame_table(fn):
+            return new_df({c: A.new_arr((G,), (lambda idx, ci=ci: fn(idx[0], ci)), "float") for ci, c in enumerate(SQCOLS)}, SQCOLS, G)
+
+        def mobile_spec(n, i):
+            D = W.disp(n, sv.add(n, lag))
+            r2 = _sum([sv.mul(D(i)[a], D(i)[a]) for a in range(d)])
+            m = sv.cmp(">" if fast else "<", r2, W.a2.get((i,)))
+            return sv.and_(m, W.sel(n, i)) if cond else m
+
+        def csq(interp, args, kwargs):
+            a = dict(zip(["snapshot", "qvector", "condition"], args))
+            a.update(kwargs)
+            st = cur()
+            snap = a.get("snapshot")
+            ts = snap.content["timestep"] if getattr(snap, "kind", None) == "obj" else None
+            okf = isinstance(ts, sv.SV) and z3.is_app(ts.t) and ts.t.decl().name() == "frame_tag" and z3.is_int_value(ts.t.arg(0)) and ts.t.arg(0).as_long() == sq_tag
+            st.require(bool(okf), "call:conditional_sq:snapshot-is-a-frame-of-(x_snapshots-if-given-else-the-dynamics-trajectory)")
+            if not okf:
+                raise sv.EngineError("conditional_sq summary: snapshot argument is not a frame of the expected trajectory")
+            n = sv.wrap(ts.t.arg(1))
+            qv = a.get("qvector")
+            st.require(isinstance(qv, A.Arr) and qv.sid == QV.get("sid") and qv.view is None, "call:conditional_sq:qvector=the-default-wave-vectors")
+            cnd = a.get("condition")
+            okc = isinstance(cnd, A.Arr) and cnd.ndim == 1 and cnd.dtype == "bool"
+            st.require(bool(okc), "call:conditional_sq:condition-is-a-boolean-vector")
+            if not okc:
+                raise sv.EngineError("conditional_sq summary: condition is not a boolean vector")
+            A.require_dim_eq(cnd.shape[0], N, "call:conditional_sq:condition-length")
+            i = sv.fresh_int("ci")
+            st.assume(W.pre_cell(n)) if pbc else None
+            st.require(sv.implies(_in(0, i, N), sv.cmp("==", cnd.get((i,)), mobile_spec(n, i))),
+                       "call:conditional_sq:condition=slow(fast)-between-frames-n-and-n+lag(-and-selected-in-frame-n)")
+            # precondition of the unit (instance at this origin): the slow (fast, selected) subset of every origin frame is not
+            # empty — conditional_sq (C13) requires at least one selected particle (it divides by sqrt of their number)
+            cnt = Sum(0, N, lambda j: sv.ite(mobile_spec(n, j), 1, 0))
+            st.assume(sv.implies(_in(0, n, norig), sv.cmp(">=", cnt, 1)))
+            st.require(sv.cmp(">=", Sum(0, N, lambda j: sv.ite(cnd.get((j,)), 1, 0)), 1), "call:conditional_sq:pre:at-least-one-selected-particle")
+            tab = frame_table(lambda g, ci: sv.SV(CS(sv.znum(n), sv.znum(g), z3.IntVal(ci))))
+            return (None, tab)
+        self.summaries = {"PyMatterSim.utils.pbc.remove_pbc": summ_remove_pbc(W), MOD + ".cage_relative": summ_cage_relative(W), CSQ_KEY: csq, CWV_KEY: cwv}
+        ctx.interp.summaries = dict(self.summaries)
+
+        # ---- written invariant of the origin loop: ave_sqresults(k) = sum_{n<k} S_n (a frame); first iteration from the number 0
+        def hint(interp, s, frame, st, lo, hi, item_fn):
+            where = f"{frame.fname}:{s.lineno}"
+            var = "ave_sqresults"
+
+            def inv(k):
+                return frame_table(lambda g, ci: Sum(lo, k, lambda n: sv.SV(CS(sv.znum(n), sv.znum(g), z3.IntVal(ci)))))
+
+            def run(kv, val, extra):
+                fr = Frame(frame.module, dict(frame.env), frame.fname)
+                fr.env[var] = val
+                st2 = st.fork()
+                st2.pc = list(st.pc) + [sv.zb(sv.cmp(">=", kv, lo)), sv.zb(sv.cmp("<", kv, hi))] + extra
+                with use_state(st2):
+                    interp.assign(s.target, item_fn(kv), fr)
+                    outs = interp.exec_block_paths(s.body, fr, st2)
+                normal = [(f2, s2) for f2, s2, out in outs if out[0] == "normal"]
+                for f2, s2, out in outs:
+                    if out[0] == "raise":
+                        st.side.append(_SideGoal(f"loop-body-raises:{out[1]}:{out[2]}", z3.BoolVal(False), s2.all_assumptions(), where))
+                if len(normal) != 1:
+                    raise sv.EngineError("sq4 origin loop: body does not have a single normal path")
+                return normal[0]
+
+            def eq_goals(s2, got, want_df, kind):
+                g = sv.fresh_int("g")
+                with use_state(s2):
+                    if not (getattr(got, "kind", None) == "df" and df_content(got)["order"] == SQCOLS and A.dim_eq_syntactic(df_content(got)["n"], G)):
+                        st.side.append(_SideGoal(kind, z3.BoolVal(False), s2.all_assumptions(), where))
+                        return
+                    for c in SQCOLS:
+                        e = sv.cmp("==", df_content(got)["cols"][c].get((g,)), df_content(want_df)["cols"][c].get((g,)))
+                        st.side.append(_SideGoal(kind, sv.zb(sv.implies(_in(0, g, G), e)), s2.all_assumptions(), where))
+            lo1 = A.simp(sv.add(lo, 1))
+            want1 = inv(lo1)              # (tables are allocated before the runs fork the state)
+            f2, s2 = run(lo, frame.env[var], [])
+            eq_goals(s2, f2.env[var], want1, "loop-init")
+            k = sv.fresh_int("k")
+            cur_df, nxt_df = inv(k), inv(A.simp(sv.add(k, 1)))
+            f3, s3 = run(k, cur_df, [sv.zb(sv.cmp(">=", k, lo1))])
+            eq_goals(s3, f3.env[var], nxt_df, "loop-step")
+            frame.env[var] = inv(hi)
+            for nm in ("pos_init", "pos_end", "RII", "mobility_condition", "n"):
+                frame.env.pop(nm, None)
+        ln = _first_for(self.qualname, "conditional_sq")
+        ctx.interp.loop_hints[(f"{MOD}.{self.qualname}", "for", ln)] = hint
+        of = "s4.csv" if fil else ""
+        inp = dict(W=W, T=T, G=G, CS=CS, lag=lag, norig=norig, of=of, g=ctx.int("g"),
+                   watch=[W.X.sid, W.tm.sid, W.diam.sid, W.a2.sid, W.ppp.sid] + ([W.HM.sid] if pbc else []) + ([W.C.sid] if cond else []))
+        return [self_, t, qrange, (W.C if cond else None), of], {}, inp
+
+    def clause_names(self, case):
+        return ["result:table-of-q-and-Sq", "value=average-over-the-T-lag-origins-of-the-structure-factor-of-the-slow(fast)-subset", "file=returned",
+                "frame-inputs-not-written"]
+
+    def ensures(self, ctx, case, inp, out):
+        from pyvc.pandas_model import df_content
+        res = out.value
+        G, CS, norig, g = inp["G"], inp["CS"], inp["norig"], inp["g"]
+        ok = getattr(res, "kind", None) == "df" and df_content(res)["order"] == SQCOLS and A.dim_eq_syntactic(df_content(res)["n"], G)
+        yield "result:table-of-q-and-Sq", bool(ok)
+        if not ok:
+            return
+        cols = df_content(res)["cols"]
+        inr = _in(0, g, G)
+        eqs = []
+        for ci, c in enumerate(SQCOLS):
+            want = sv.div(Sum(0, norig, lambda n: sv.SV(CS(sv.znum(n), sv.znum(g), z3.IntVal(ci)))), norig)
+            eqs.append(sv.cmp("==", cols[c].get((g,)), want))
+        yield "value=average-over-the-T-lag-origins-of-the-structure-factor-of-the-slow(fast)-subset", sv.implies(inr, sv.and_(*eqs))
+        writes = [e for e in out.state.trace if e[0] == "to_csv"]
+        if not inp["of"]:
+            yield "file=returned", len(writes) == 0
+        elif len(writes) == 1 and writes[0][1] == inp["of"] and list(writes[0][3]) == SQCOLS:
+            yield "file=returned", sv.implies(inr, sv.and_(*[sv.cmp("==", writes[0][2][c].get((g,)), cols[c].get((g,))) for c in SQCOLS]))
+        else:
+            yield "file=returned", False
+        stores = [e for e in out.state.events if e[0] == "store" and e[1] in inp["watch"]]
+        yield "frame-inputs-not-written", len(stores) == 0
+
+    def replay(self, case, clause, model, seed):
+        return _replay_sq4(case, clause, model, seed)
+
+
+def _min(xs):
+    acc = xs[0]
+    for x in xs[1:]:
+        acc = sv.minv(acc, x)
+    return acc
+
+
+def _replay_sq4(case, clause, model, seed):
+    """real Dynamics.sq4 against the definition: lag from the documented time column, S(q) of the slow (fast, selected) subset of each
+    origin frame by direct summation over the default wave vectors, rounded and averaged over equal |q| as conditional_sq documents,
+    then averaged over the origins"""
+    import importlib
+
+    import numpy as np
+    parts = case.split("/")
+    d, fast, coords, cage, cond = int(parts[0][2]), parts[1] == "fast", parts[2], parts[3] == "cage", parts[4] == "condition"
+    pbc = coords == "x-only"
+    Dm = importlib.import_module(MOD)
+    WV = importlib.import_module("PyMatterSim.utils.wavevector")
+    rng = np.random.default_rng(seed + 4242 + d)
+    tried = 0
+    for rep in range(24):
+        if tried >= 8:
+            break
+        T, N = int(rng.integers(3, 7)), int(rng.integers(3, 8))
+        w = _random_world(rng, d, pbc, False, cond, T, N, "linear")
+        if rep % 2 == 0:
+            # frame spacing 50 steps with dt = 0.002: the lag times 0.1, 0.2, 0.3, ... whose float quotients by 0.1 are not all integers
+            w["ts"] = np.arange(T) * 50
+            w["dt"] = 0.002
+        H = w["H"]
+        if H is None:
+            H = np.stack([np.diag(rng.uniform(4.0, 6.0, size=d))] * T)
+        snaps = _mk_snapshots(w["pos"], w["ts"], w["ptype"], H)
+        xs = None
+        if coords == "xu+x":
+            xs = _mk_snapshots(w["pos"] + rng.normal(0, 0.3, size=w["pos"].shape), w["ts"], w["ptype"], H)
+        try:
+            obj = Dm.Dynamics(xu_snapshots=None if pbc else snaps, x_snapshots=snaps if pbc else xs, dt=w["dt"], ppp=w["ppp"],
+                              diameters=w["diameters"], a=w["a"], cal_type="fast" if fast else "slow", neighborfile="", max_neighbors=30)
+        except Exception as e:  # noqa
+            return {"ran": True, "failed": True, "searched": tried, "inputs": {"T": T, "N": N, "d": d}, "detail": f"constructor raises {type(e).__name__}: {e}"}
+        k = int(rng.integers(0, T - 1))
+        t = float(obj.time[k])
+        lag = k + 1
+        qrange = 3.0
+        inputs = {"T": T, "N": N, "d": d, "timesteps": np.asarray(w["ts"]).tolist(), "dt": w["dt"], "t": t, "expected_lag": lag, "cal_type": "fast" if fast else "slow",
+                  "coords": coords, "condition": None if w["cond"] is None else w["cond"].tolist()}
+        sq_snaps = (xs if xs is not None else snaps).snapshots
+        L = sq_snaps[0].boxlength
+        twopidl = 2 * np.pi / L
+        numofq = int(qrange * 2.0 / twopidl.min())
+        qint = WV.choosewavevector(ndim=d, numofq=numofq, onlypositive=False)
+        q = qint.astype(float) * twopidl[None, :]
+        diam = np.array([w["diameters"][int(x)] for x in w["ptype"]])
+        a2 = (w["a"] * diam) ** 2
+        acc, keys = None, None
+        empty = False
+        for n in range(T - lag):
+            dr = w["pos"][n + lag] - w["pos"][n]
+            if pbc:
+                h = w["H"][n]
+                s_ = dr @ np.linalg.inv(h)
+                dr = dr - (np.rint(s_) * w["ppp"]) @ h
+            r2 = (dr ** 2).sum(axis=1)
+            mob = (r2 > a2) if fast else (r2 < a2)
+            if w["cond"] is not None:
+                mob = mob & w["cond"][n].astype(bool)
+            if not mob.any():
+                empty = True          # outside the precondition (conditional_sq needs a non-empty subset)
+                break
+            P = sq_snaps[n].positions[mob]
+            rho = np.exp(-1j * (q @ P.T)).sum(axis=1) / np.sqrt(int(mob.sum()))
+            per = np.round((rho * np.conj(rho)).real, 8)
+            qn = np.round(np.sqrt((q ** 2).sum(axis=1)), 8)
+            keys = np.unique(qn)
+            val = np.array([per[qn == kq].mean() for kq in keys])
+            acc = val if acc is None else acc + val
+        if empty:
+            continue
+        tried += 1
+        try:
+            got = obj.sq4(t=t, qrange=qrange, condition=w["cond"], outputfile="")
+        except Exception as e:  # noqa
+            return {"ran": True, "failed": True, "searched": tried, "inputs": inputs, "detail": f"raises {type(e).__name__}: {e}"}
+        want = acc / (T - lag)
+        g = np.asarray(got.values, dtype=float)
+        bad = None
+        if list(got.columns) != ["q", "Sq"] or g.shape != (len(keys), 2):
+            bad = f"result has columns {list(got.columns)} and shape {g.shape}; expected q, Sq and {len(keys)} rows"
+        elif not np.allclose(g[:, 0], keys, rtol=1e-7, atol=1e-7):
+            bad = "q column differs from the distinct |q| of the default wave vectors"
+        else:
+            okv = np.isclose(g[:, 1], want, rtol=1e-6, atol=1e-7) | (np.isnan(g[:, 1]) & np.isnan(want))
+            if not okv.all():
+                r = int(np.argwhere(~okv)[0][0])
+                bad = f"row {r} (|q| = {keys[r]}): real code {g[r, 1]!r}, definition at lag {lag} (t = {t!r} = time[{k}]) {want[r]!r}"
+        if bad:
+            return {"ran": True, "failed": True, "searched": tried, "inputs": inputs, "detail": bad}
+    return {"ran": True, "failed": False, "searched": tried, "detail": "real sq4 agrees with the definition on every seeded trajectory"}
+
+
+UNITS = [DynRelaxation(), LogRelaxation(), DynInit(), LogInit(), Alpha2Factor(), CageRelative(), DynSq4()]
 # callee contracts of other properties used at call sites: their units are re-verified with this check
 from contracts.common import callee_units as _callee_units   # noqa: E402
 UNITS = UNITS + _callee_units([('C02', None)], UNITS)
 
 MANIFEST = {
     "text": 'Dynamics.relaxation and LogDynamics.relaxation (real ASTs, re-read every run), symbolic frame number T >= 2 and particle number N >= 1, d in {2,3}, for coordinates xu / x-only (PBC removal through remove_pbc with the cell of the origin frame, any mask with a periodic axis), with/without cage-relative neighbour lists (list of the origin frame), with/without a per-frame boolean selection, slow (8 combinations) and fast (2 combinations) per dimension: at an arbitrary row k, t = time[k]; isf, Qt, msd are the averages over ALL origins n0 = 0..T-2-k of the mean of cos(q_i D) over selected particles and axes (q_i = qconst/diameter_i), of the fraction with |D|^2 < a2_i (> for fast) and of the mean |D|^2; X4_Qt = N_sel(<Q^2>-<Q>^2); alpha2 = c_d <M4>/<M2>^2 - 1 with c_3 = 3/5, c_2 = 1/2; the log variant returns the same pair quantities with the first frame as only origin and X4_Qt = 0. The nested (end frame, lag) loops are summarised by inductively checked scatter-add summaries; two generic lemmas proved by induction on the frame number (number of origins = T-1-k; sum over end frames = sum over origins) turn the accumulated sums into the origin averages of the statement. Also under contract: alpha2factor (3/5, 1/2, ValueError otherwise), cage_relative (row i = displacement minus the mean over its cn_i listed neighbours, symbolic N and list width), both __init__ without neighbour file (xu preferred, PBC flag iff only wrapped coordinates, ValueError for unequal frame numbers / no periodic axis, time[k] = (ts[k+1]-ts[0]) dt, diameters = map of the first frame types, a2_cuts = (a diameter)^2), and the lemma wrapped = unwrapped on the contract of remove_pbc (lattice-shifted displacement within half a cell is restored, every mask, d = 2, 3). Inputs are never written.',
-    "note": 'floats as reals (A1); remove_pbc enters through its C02 contract (uninterpreted row function + call-site preconditions), cage_relative through the contract its own unit proves; np.cos uninterpreted; pandas DataFrame/Series.map contracts assumed; quantified preconditions used by instances; NOT under contract: Dynamics.sq4 (S4 clause) and the neighbour-file branch of __init__ (only replayed concretely); 6 of the 8 fast combinations per dimension are not enumerated; N of chi4 is the selection size of the first frame',
+    "note": 'floats as reals (A1); remove_pbc enters through its C02 contract (uninterpreted row function + call-site preconditions), cage_relative through the contract its own unit proves; np.cos uninterpreted; pandas DataFrame/Series.map contracts assumed; quantified preconditions used by instances; Dynamics.sq4 under contract with callee contracts of conditional_sq / choosewavevector (lag = round(t/time[0]), mobility condition per origin, origin average, file); NOT under contract: the neighbour-file branch of __init__ (only replayed concretely); 6 of the 8 fast combinations per dimension are not enumerated; N of chi4 is the selection size of the first frame',
 }
